@@ -168,7 +168,33 @@ def generate(rng, tier):
             if rep == 0:
                 specs.append({'kind': 'basis', 'basis': b, 'amount': rng.choice([-1, -2]), 'lower': None})
                 specs.append({'kind': 'basis', 'basis': b, 'amount': 1, 'lower': rng.choice([-1, p, p + 1, p + 3])})
+    # repeated interior knots whose copies are ROUND-OFF TWINS (one ulp apart, far inside knot_tolerance):
+    # what `insert_knot(0.1 + 0.2)` followed by `insert_knot(0.3)` leaves behind.  The library treats
+    # them as one knot (knot_spans / continuity work with the tolerance), so raise_order has to raise the
+    # multiplicity of the CLUSTER by the amount - duplicating every bit-distinct value instead lowers
+    # the continuity there (seeded change C05_9).
+    for rep in range(12 if quick else 60):
+        p = rng.choice([3, 3, 4, 5])
+        b = _twin_basis(rng, p)
+        if b is None:
+            continue
+        a = rng.randint(1, 2)
+        specs.append({'kind': 'basis', 'basis': b, 'amount': a, 'lower': a, 'twin': True})
     return specs
+
+
+def _twin_basis(rng, p):
+    """Open basis of order p >= 3 with an interior knot of multiplicity >= 2 whose last copy is moved up by one ulp."""
+    for _ in range(20):
+        b = gen.open_basis(rng, p, n_interior=rng.randint(1, 3), max_mult=p - 1)
+        kn = list(b['knots'])
+        idx = [i for i in range(p, len(kn) - p - 1) if kn[i] == kn[i + 1] and (i + 2 >= len(kn) or kn[i + 2] != kn[i + 1])]
+        if not idx:
+            continue
+        i = rng.choice(idx)
+        kn[i + 1] = float(np.nextafter(kn[i + 1], np.inf))
+        return {'order': p, 'knots': kn, 'periodic': -1}
+    return None
 
 
 # ---------------------------------------------------------------------------------------------
@@ -490,7 +516,12 @@ def oracle(sp, s):
         if not legal:
             fails.append('lower_order(%d) on order %d did not raise ValueError' % (l, b1.order))
         elif l == a:
-            if b2.order != b.order or b2.periodic != b.periodic or len(b2.knots) != len(b.knots) or np.any(b2.knots != b.knots):
+            if s.get('twin'):
+                # round-off twins are ONE knot for the library: lower_order may return either representative
+                same_knots = len(b2.knots) == len(b.knots) and bool(np.all(np.abs(b2.knots - b.knots) <= 1e-14 * (1 + np.abs(b.knots))))
+            else:
+                same_knots = len(b2.knots) == len(b.knots) and not np.any(b2.knots != b.knots)
+            if b2.order != b.order or b2.periodic != b.periodic or not same_knots:
                 fails.append('lower_order(raise_order(b, %d), %d) is not b: %r' % (a, a, b2.knots.tolist()))
         return fails
 
